@@ -83,81 +83,150 @@ def s_nodes_of(c):
 
 
 class RefEval:
-    """Gate-by-gate 2-valued evaluation, bit-parallel over lanes with Python ints.
+    """Gate-by-gate 2-valued evaluation, bit-parallel over table rows / lanes with Python ints, demand driven.
 
     Semantics: every port or state element is a cut - all its output lines carry its assigned value (second output of
-    a flip-flop inverted), the value arriving at its input pin 0 is its result.  Forks copy.  An unconnected pin
-    reads 0.  With tlib given, a node whose kind is a library cell is evaluated through its implementation circuit
-    (pins bound by position)."""
+    a flip-flop inverted), the value arriving at its input pin 0 is its result.  Forks copy.  An unconnected pin reads 0
+    (for the n-ary kinds and/nand/or/nor/xor/xnor the arity is the highest connected pin + 1, minimum 2).
+    Hierarchical mode: a node whose kind is a cell of one of `tlibs`, or that has an entry in `overrides`
+    (id(node) -> implementation circuit), is evaluated through its implementation circuit with pins bound by position;
+    the state of a sequential instance is the state of the state element inside its implementation, and its result is
+    the value arriving at that inner element's data pin."""
 
-    def __init__(self, circuit, tlibs=None):
+    def __init__(self, circuit, tlibs=None, overrides=None, transparent_outputs=False):
         self.c = circuit
         self.tlibs = tlibs or []
+        self.overrides = overrides or {}
         self.snodes = s_nodes_of(circuit)
         self.sidx = {id(n): i for i, n in enumerate(self.snodes)}
+        if transparent_outputs:
+            # inside an implementation circuit an output port that is also read internally is no cut: it passes its driver on
+            self.sidx = {id(n): i for i, n in enumerate(self.snodes) if is_state(n) or len(n.ins) == 0}
+
+    def impl_of(self, node):
+        if id(node) in self.overrides: return self.overrides[id(node)]
+        for tl in self.tlibs:
+            if node.kind in tl.cells: return tl.cells[node.kind][0]
+        return None
+
+    def evaluation(self, svals, M, absent=None):
+        return Evaluation(self, svals, M, absent)
 
     def eval_lines(self, svals, M):
-        """svals: per s_node an int bitmask (assigned value). Returns dict line-object-id -> value for every line."""
-        val = {}
-        onstack = set()
+        """dict id(line) -> value for every line of the circuit."""
+        e = self.evaluation(svals, M)
+        return {id(l): e.line_value(l) for l in self.c.lines}
 
-        def line_value(line):
-            if line is None: return 0
-            k = id(line)
-            if k in val: return val[k]
-            if k in onstack: raise ValueError('combinational loop')
-            onstack.add(k)
-            d = line.driver
-            pin = line.driver_pin
-            if id(d) in self.sidx:
-                v = svals[self.sidx[id(d)]]
-                if is_dff(d) and pin == 1: v = M ^ v
-            elif d.kind == '__fork__':
-                v = line_value(d.ins[0]) if len(d.ins) > 0 else 0
-            else:
-                v = self.node_out(d, pin, [line_value(l) for l in d.ins], M)
-            onstack.discard(k)
-            val[k] = v
-            return v
+    def results(self, svals, M):
+        """Value arriving at the data pin of every s_node (None if unconnected), plus the evaluation."""
+        e = self.evaluation(svals, M)
+        return [e.observation(n) for n in self.snodes], e
 
+
+class Evaluation:
+    def __init__(self, ev, svals, M, absent=None):
         import sys
         if sys.getrecursionlimit() < 20000: sys.setrecursionlimit(20000)
-        for l in self.c.lines: line_value(l)
-        return val
+        self.ev, self.svals, self.M = ev, list(svals), M
+        self.absent = absent or set()      # id(line) of lines to be treated as not connected at their reader
+        self.val = {}
+        self.onstack = set()
+        self.inner = {}
 
-    def node_out(self, node, pin, ins, M):
-        for tl in self.tlibs:
-            if node.kind in tl.cells:
-                return self.cell_out(tl.cells[node.kind][0], pin, ins, M)
+    def sval(self, i):
+        v = self.svals[i]
+        if callable(v):
+            v = v()
+            self.svals[i] = v
+        return v
+
+    def line_value(self, line):
+        if line is None or id(line) in self.absent: return 0
+        k = id(line)
+        if k in self.val: return self.val[k]
+        if k in self.onstack: raise ValueError('combinational loop')
+        self.onstack.add(k)
+        d, pin = line.driver, line.driver_pin
+        ev = self.ev
+        impl = ev.impl_of(d)
+        if impl is not None:
+            v = self.instance(d, impl).output(pin)
+        elif id(d) in ev.sidx:
+            v = self.sval(ev.sidx[id(d)])
+            if is_dff(d) and pin == 1: v = self.M ^ v
+        elif d.kind == '__fork__':
+            v = self.line_value(d.ins[0]) if len(d.ins) > 0 else 0
+        else:
+            v = self.gate_value(d, pin)
+        self.onstack.discard(k)
+        self.val[k] = v
+        return v
+
+    def pins(self, node):
+        return [None if (l is None or id(l) in self.absent) else l for l in node.ins]
+
+    def gate_value(self, node, pin):
         p = prim_of(node.kind)
         if p is None: raise KeyError(f'RefEval: unknown kind {node.kind}')
         if pin != 0: return 0
+        ins = self.pins(node)
         if p in N_ARY:
-            n = 4 if len(ins) > 3 and node.ins[3] is not None else 3 if len(ins) > 2 and node.ins[2] is not None else 2
+            n = 2
+            for k in (3, 2):
+                if len(ins) > k and ins[k] is not None: n = k + 1; break
         else:
-            n = max(FIXED_ARITY[p], 0)
-        v = (list(ins) + [0, 0, 0, 0])[:max(n, 1)]
-        return PRIMS[p](v, M) & M
+            n = FIXED_ARITY[p]
+        v = [self.line_value(ins[k]) if k < len(ins) else 0 for k in range(max(n, 1))]
+        return PRIMS[p](v, self.M) & self.M
 
-    def cell_out(self, impl, pin, ins, M):
-        """Evaluate output `pin` of a library cell: inputs/outputs are the implementation's ports by position."""
-        in_nodes = [n for n in impl.io_nodes if len(n.ins) == 0]
-        out_nodes = [n for n in impl.io_nodes if len(n.ins) > 0]
-        if pin >= len(out_nodes): return 0
-        ev = RefEval(impl)
-        sv = [0] * len(ev.snodes)
-        for k, n in enumerate(in_nodes):
-            sv[ev.sidx[id(n)]] = ins[k] if k < len(ins) else 0
-        lv = ev.eval_lines(sv, M)
-        return lv[id(out_nodes[pin].ins[0])]
+    def instance(self, node, impl):
+        k = id(node)
+        if k not in self.inner: self.inner[k] = Instance(self, node, impl)
+        return self.inner[k]
 
-    def results(self, svals, M):
-        """Value arriving at input pin 0 of every s_node (None if unconnected)."""
-        lv = self.eval_lines(svals, M)
-        out = []
-        for n in self.snodes:
-            out.append(lv[id(n.ins[0])] if len(n.ins) > 0 and n.ins[0] is not None else None)
-        return out, lv
+    def observation(self, node):
+        """Value arriving at the data pin of a port / state element (None if unconnected)."""
+        impl = self.ev.impl_of(node)
+        if impl is not None:
+            return self.instance(node, impl).state_observation()
+        if len(node.ins) == 0 or node.ins[0] is None: return None
+        return self.line_value(node.ins[0])
+
+
+class Instance:
+    """One library-cell (or overridden) instance evaluated through its implementation circuit."""
+
+    def __init__(self, outer, node, impl):
+        self.outer, self.node, self.impl = outer, node, impl
+        self.in_nodes = [n for n in impl.io_nodes if len(n.ins) == 0]
+        self.out_nodes = [n for n in impl.io_nodes if len(n.ins) > 0]
+        iev = RefEval(impl, tlibs=outer.ev.tlibs, transparent_outputs=True)
+        sv = [0] * len(iev.snodes)
+        absent = set()
+        for k, n in enumerate(self.in_nodes):
+            l = node.ins[k] if k < len(node.ins) else None
+            if l is None or id(l) in outer.absent:
+                # unconnected instance pin: a single reader inside sees no connection at all, several readers see 0
+                outs = [o for o in n.outs if o is not None]
+                if len(outs) == 1: absent.add(id(outs[0]))
+                sv[iev.sidx[id(n)]] = 0
+            else:
+                sv[iev.sidx[id(n)]] = (lambda l=l: outer.line_value(l))
+        self.state_nodes = [n for n in iev.snodes if is_state(n)]
+        oidx = outer.ev.sidx.get(id(node))
+        for n in self.state_nodes:
+            sv[iev.sidx[id(n)]] = (lambda: outer.sval(oidx)) if oidx is not None else 0
+        self.e = iev.evaluation(sv, outer.M, absent)
+
+    def output(self, pin):
+        if pin >= len(self.out_nodes): return 0
+        return self.e.line_value(self.out_nodes[pin].ins[0])
+
+    def state_observation(self):
+        if not self.state_nodes: return None
+        n = self.state_nodes[0]
+        if len(n.ins) == 0 or n.ins[0] is None: return None
+        return self.e.line_value(n.ins[0])
 
 
 # ---- RefWave: what a waveform encodes
